@@ -87,6 +87,12 @@ Section Sem.
   (* primitive arithmetic that cannot run user code *)
   Variable rel_prim : binop -> value -> value -> bool.
   Variable loose_prim : value -> value -> bool.
+  (* class heritage: "extends v" checks that v is a constructor (or null) and
+     reads v.prototype *)
+  Variable o_heritage : value -> outcome.
+  (* array destructuring of an array literal: does element [i] come out
+     undefined, so that the default value of the binding element runs? *)
+  Variable default_runs : node -> nat -> bool.
 
   Definition to_prim (v : value) : outcome :=
     match v with VObj id => o_toprim id | _ => ret v end.
@@ -161,6 +167,82 @@ Section Sem.
       | x :: r => bind (ev x) (fun v => bind (to_string v) (fun _ => go r))
       end.
 
+  Definition opt_eval (ev : node -> outcome) (o : option node) : outcome :=
+    match o with Some x => ev x | None => ret VUndef end.
+
+  (* statement lists: in order, stop at the first exception *)
+  Definition eval_seq_with (ev : node -> outcome) : list node -> outcome :=
+    fix go (l : list node) : outcome :=
+      match l with
+      | [] => ret VUndef
+      | x :: r => bind (ev x) (fun _ => go r)
+      end.
+
+  (* class members, at class definition time: computed keys are evaluated and
+     converted to property keys, static fields and static blocks run; instance
+     fields and method bodies do not. Decorators, parameter decorators and
+     static fields with assign semantics (useDefineForClassFields = false:
+     setters may run) are opaque. (ECMA-262 evaluates all keys before the static
+     elements; the relative order of events inside one class is not modelled.) *)
+  Definition eval_members_with (ev : node -> outcome) (whole : node) (use_define : bool) : list node -> outcome :=
+    fix go (l : list node) : outcome :=
+      match l with
+      | [] => ret (VObj 0)
+      | PProp k computed static dec argdec key value init block :: r =>
+        match k with
+        | KStaticBlock => bind (eval_seq_with ev block) (fun _ => go r)
+        | _ =>
+          if dec || (match k with KMethod => argdec | _ => false end) then o_opaque whole
+          else
+            bind (if computed then bind (ev key) to_key else ret VUndef) (fun _ =>
+            bind (if static
+                  then if (match k with KField => negb use_define | _ => false end) then o_opaque whole
+                       else bind (opt_eval ev value) (fun _ => opt_eval ev init)
+                  else ret VUndef) (fun _ => go r))
+        end
+      | _ :: _ => o_opaque whole
+      end.
+
+  (* binding elements of an array pattern whose initialiser is an array literal
+     (built-in iterator: no user code): a default value runs when the world says
+     the element is undefined *)
+  Definition eval_elems_with (ev : node -> outcome) (whole : node) : nat -> list node -> outcome :=
+    fix go (i : nat) (l : list node) : outcome :=
+      match l with
+      | [] => ret VUndef
+      | BItem ib def :: r =>
+        bind (match def with
+              | Some d => if default_runs whole i then ev d else ret VUndef
+              | None => ret VUndef end) (fun _ =>
+        match ib with
+        | BIdent | BMissing => go (S i) r
+        | _ => o_opaque whole        (* nested patterns *)
+        end)
+      | _ :: _ => o_opaque whole
+      end.
+
+  Definition eval_decls_with (ev : node -> outcome) (whole : node) (k : lkind) : list node -> outcome :=
+    fix go (l : list node) : outcome :=
+      match l with
+      | [] => ret VUndef
+      | DDecl b value :: r =>
+        bind (opt_eval ev value) (fun v =>
+        bind (match b with
+              | BIdent => ret VUndef
+              | BArray items =>
+                match value with
+                | Some (EArray _) => eval_elems_with ev whole O items
+                | _ => o_opaque whole          (* iterating an arbitrary value / nothing to destructure *)
+                end
+              | _ => o_opaque whole            (* object patterns read properties *)
+              end) (fun _ =>
+        bind (match k, value with
+              | LUsing, Some _ => if nullish v then ret VUndef else o_opaque whole   (* Symbol.dispose lookup *)
+              | _, _ => ret VUndef
+              end) (fun _ => go r)))
+      | _ :: _ => o_opaque whole
+      end.
+
   Fixpoint eval (e : node) : outcome :=
     let eval_items := eval_items_with eval in
     let eval_props := eval_props_with eval e in
@@ -228,8 +310,33 @@ Section Sem.
     | EAnnotation _ true => o_annotated e []
     | EAnnotation v false => eval v
     | EInlinedEnum v => eval v
+    (* classes *)
+    | EClass c => eval c
+    | CClass decorated ext props use_define =>
+      if decorated then o_opaque e
+      else bind (match ext with Some x => bind (eval x) o_heritage | None => ret VUndef end) (fun _ =>
+           eval_members_with eval e use_define props)
+    (* statements (completion values are not modelled: Ok VUndef) *)
+    | SFunction | SEmpty | SImport | SExportFrom | SExportClause | SExportDefaultFn => ret VUndef
+    | SClass c | SExportDefaultClass c => bind (eval c) (fun _ => ret VUndef)
+    | SExportDefaultExpr v => bind (eval v) (fun _ => ret VUndef)
+    | SReturn v => opt_eval eval v
+    | SExpr v _ => bind (eval v) (fun _ => ret VUndef)
+    | SLocal k decls =>
+      match k with
+      | LAwaitUsing => o_opaque e
+      | _ => eval_decls_with eval e k decls
+      end
+    | STry block has_fin fin =>
+      match eval_seq_with eval block with
+      | (t, Ok _) => let '(t2, r2) := (if has_fin then eval_seq_with eval fin else ret VUndef) in (t ++ t2, r2)
+      | (t, Throw) => let '(t2, r2) := o_opaque e in (t ++ t2, r2)     (* the catch clause runs *)
+      end
     | _ => o_opaque e
     end.
+
+  (* a top-level statement list (StmtsCanBeRemovedIfUnused) *)
+  Definition exec_stmts (l : list node) : outcome := eval_seq_with eval l.
 
   Definition silent (o : outcome) : Prop := exists v, o = ([], Ok v).
 End Sem.
